@@ -70,15 +70,23 @@ MCCallsHist  == Unary({"", "h1", "h2"}, {"one"}, {"set"}, {"some"}, {0})
                          ~c.early /\ Len(c.reqs) = 2 /\ Len(c.resps) = 2}
 MCCallsHistSmall == Unary({"", "h1"}, {"one"}, {"set"}, {"some"}, {0}) \cup NoRoute({""}, {"one"})
 
+\* outages: who is called matters, not what is said
+MCCallsOutage == Unary({"", "h1"}, {"one"}, {"set"}, {"some"}, {0})
+\* bursts of overlapping first calls: a short unary call and a stream that stays open for a while
+MCBurstCalls == Unary({""}, {"multi"}, {"set"}, {"some"}, {0})
+                \cup {c \in Bidi({"", "h1"}, {"one"}, {"send"}, {"some"}, {0, 13}, {"echo"}) :
+                         ~c.early /\ Len(c.reqs) = 1 /\ Len(c.resps) = 1}
+MCBurstSizes == {2, 3}
+
 -----------------------------------------------------------------------------
 TableJson(t) == {[host |-> s.host, path |-> s.path, be |-> t[s]] : s \in {x \in Slots : t[x] # ""}}
 StepJson(s) == IF s.op = "set" THEN [op |-> "set", table |-> TableJson(s.table)] ELSE s
 HistJson(h) == [i \in DOMAIN h |-> StepJson(h[i])]
 
-View == <<table, pool, stale, closing, open, accepted, cur, cnt>>
+View == <<table, pool, stale, live, closing, open, accepted, up, cur, bst, cnt>>
 
 Observable == /\ Len(hist') > Len(hist)
-              /\ \/ hist'[Len(hist')].op = "call"
+              /\ \/ hist'[Len(hist')].op \in {"call", "burst"}
                  \/ hist'[Len(hist')].op = "tick" /\ hist'[Len(hist')].closed # {}
 GenNext == /\ Next
            /\ IF Observable THEN PrintT(ToJson([steps |-> HistJson(hist')])) ELSE TRUE
